@@ -42,6 +42,10 @@ CLAIMED = {
  'C16': dict(engine = 'symx', technique = 'CrossHair (z3-backed symbolic execution) for ulist, symx symbolic execution with z3 for dictattr/Dict key algebra and Dict.__call__ dependency graphs; counterexample replay',
              text = 'ulist construction, + | - & against an ordered-set oracle are "Confirmed over all paths" by CrossHair for all int lists of length <= 3 per side; d - keys, d & keys, d[keys], d[k1,k2], d + other, relabel, attribute access, class preservation and operand immutability are decided for every mapping over a 4-key pool with symbolic values; Dict.__call__ for every dependency graph on 3 (thorough 4) derived keys in every keyword order, incl. cycles and redefinitions.',
              note = 'Trusted: CrossHair 0.0.110, z3, CPython, proxies. Statement says up to 6 derived keys; 3 quick / 4 thorough are explored. ulist elements are ints.'),
+
+ 'C01': dict(engine = 'symx', technique = 'symbolic execution of every public dictable operation with z3 from an arbitrary valid table state (one inductive step over the representation invariant) against a list-of-records model; counterexample replay',
+             text = 'A dictable has no state beyond its {column: list} mapping, so "any history" is covered by checking each public operation from every valid table of <= 2 rows (thorough 3) x <= 2 columns with symbolic cells: result equals the list-of-records model, is rectangular, len/shape/iteration/d[i][c]==d[c][i] agree, operands keep the very same cell objects, wrong-length assignments raise ValueError and leave the table unchanged, and in-place changes of results never reach operands (two-step aliasing family).',
+             note = 'Trusted: z3, CPython, proxies. The representation invariant (all columns are lists of equal length) is assumed for the pre-state and re-established by each obligation, which is what extends the claim to histories of any length within the size bound. Cells are symbolic ints (mixed kinds in the state obligations).'),
 }
 NA = {}
 TODO = 'check not built yet in this session (work in progress); will be decided by symbolic execution of the real code as described in DESIGN.md'
